@@ -19,11 +19,17 @@
                          is free, hands exactly the pairs taken to the visitor,
                          in order, and goes on with the next bucket until the
                          last one.
-   Not a theorem: "every key present for the whole call is visited" needs the
-   composition of C07_range_snapshot over all buckets with the fact that a table
-   that has been replaced is no longer written (C04: XR / write ownership); the
-   early stop and visitors that mutate the map are not in XMachine (XMachineS has
-   nested calls; searched there and on the real code). *)
+     C07_range_complete  a traversal stands before bucket 0 of table tab; if the pair
+                         (k, v) is visible in that table in every state the run
+                         goes through, then by the time the traversing thread is
+                         idle again the visitor has been called with (k, v),
+                         whatever the other threads did meanwhile.  ("Visible in
+                         the traversed table": a table that has been replaced by a
+                         grow / shrink / Clear is no longer written -- C04, XR --
+                         so a pair of the table current at the pointer load that
+                         nobody deletes or overwrites stays visible in it.)
+   Not in XMachine: the early stop and visitors that mutate the map (XMachineS
+   has nested calls; searched there and on the real code). *)
 From CacheV Require Import Base SpecMap Client CacheModel CacheOfModel Ops SpecTTL.
 From CacheV Require Import TableModel.
 From CacheV.proofs Require Import C01_sim C01_ops C07_range C11_lists C11_table.
@@ -109,6 +115,23 @@ Theorem C07_range_snapshot :
 Proof. exact @range_snapshot_proof. Qed.
 Print Assumptions C07_range_snapshot.
 
+Theorem C07_range_complete :
+  forall (K V : Type) (eqd : forall a b : K, {a = b} + {a <> b})
+         (hash : K -> N -> N) (idx : N -> nat -> nat) (tag : N -> N) (nslots : nat) (seeds : nat -> N)
+         (grow_needed shrink_policy : nat -> Z -> bool) (probe : list (option N) -> N -> list nat)
+         (nstripes : nat -> nat) (minlen : nat) (grow_only : bool),
+    xhyps4 idx nstripes minlen nslots probe ->
+    forall len0 todo sched0 sched t tab k v, (0 < len0)%nat ->
+    let xr := @xrun K V eqd hash idx tag nslots seeds grow_needed shrink_policy probe nstripes minlen grow_only in
+    let s0 := fst (xr (xinit nslots seeds nstripes len0 todo) sched0) in
+    g_pc s0 t = PG_Lock tab 0 ->
+    along eqd hash idx tag nslots seeds grow_needed shrink_policy probe nstripes minlen grow_only
+          (fun s => X_lin.vis hash idx (tab_at nslots nstripes s tab) k v) s0 sched ->
+    g_pc (fst (xr s0 sched)) t = PIdle ->
+    In (k, v) (allvis t (snd (xr s0 sched))).
+Proof. exact @range_complete_proof. Qed.
+Print Assumptions C07_range_complete.
+
 Theorem C07_range_protocol :
   forall (K V : Type) (eqd : forall a b : K, {a = b} + {a <> b})
          (hash : K -> N -> N) (idx : N -> nat -> nat) (tag : N -> N) (nslots : nat) (seeds : nat -> N)
@@ -151,3 +174,24 @@ Example C07_nonvacuous :
   /\ cv 1%nat [] (snd (ex_xrun07 (ex_sched07 ++ [1%nat]))) = [(7, 1); (8, 2)]%nat.
 Proof. vm_compute. split; reflexivity. Qed.
 Print Assumptions C07_nonvacuous.
+
+(* ... and for C07_range_complete: the same run one step earlier (thread 1 stands before bucket 0
+   of table 0), continued by thread 1 alone until it is idle again; (7, 1) is visible throughout *)
+Definition ex_hash07 : nat -> N -> N := fun _ _ => 5%N.
+Definition ex_idx07 : N -> nat -> nat := fun h len => (N.to_nat h mod len)%nat.
+Definition ex_probe07 : list (option N) -> N -> list nat :=
+  fun tags tg => filter (fun i => match nth i tags None with Some t => N.eqb t tg | None => false end) (seq 0%nat (length tags)).
+Example C07_complete_nonvacuous :
+  let s0 := fst (ex_xrun07 (repeat 0 20 ++ [1; 1])%nat) in
+  g_pc s0 1%nat = PG_Lock 0 0
+  /\ along Nat.eq_dec ex_hash07 ex_idx07 (fun h => h) 2%nat (fun _ => 0%N) (fun _ _ => false) (fun _ _ => false) ex_probe07 (fun _ => 1%nat) 1%nat false
+           (fun s => X_lin.vis ex_hash07 ex_idx07 (tab_at 2%nat (fun _ => 1%nat) s 0%nat) 7%nat 1%nat) s0 [1; 1]%nat
+  /\ g_pc (fst (@xrun nat nat Nat.eq_dec ex_hash07 ex_idx07 (fun h => h) 2%nat (fun _ => 0%N) (fun _ _ => false) (fun _ _ => false) ex_probe07
+                       (fun _ => 1%nat) 1%nat false s0 [1; 1]%nat)) 1%nat = PIdle.
+Proof.
+  cbv zeta. split. { vm_compute. reflexivity. } split. 2:{ vm_compute. reflexivity. }
+  cbn [along]. repeat match goal with |- context [xstep ?a ?b ?c ?d ?e ?f ?g ?h ?i ?j ?k ?l ?s ?u] =>
+    let r := eval vm_compute in (xstep a b c d e f g h i j k l s u) in change (xstep a b c d e f g h i j k l s u) with r; cbv iota beta end.
+  repeat split; (exists 0%nat; vm_compute; (split; [lia|]); (split; [discriminate | reflexivity])).
+Qed.
+Print Assumptions C07_complete_nonvacuous.
